@@ -8,6 +8,7 @@ package schedrig
 import (
 	"bytes"
 	"fmt"
+	"io"
 	"math/rand"
 	"net"
 	"os"
@@ -184,7 +185,7 @@ func (c metaInfoClient) Download(namespace string, d core.Digest) (*core.MetaInf
 type nopProducer struct{}
 
 func (nopProducer) Produce(*networkevent.Event) {}
-func (nopProducer) Close() error                 { return nil }
+func (nopProducer) Close() error                { return nil }
 
 // PeerOptions configures NewPeer.
 type PeerOptions struct {
@@ -314,42 +315,40 @@ func (p *Peer) Seed(b *Blob) error {
 type CacheState struct {
 	InCache    bool
 	InDownload bool
-	Exact      bool // cache content equals the blob (only checked when InCache)
+	// Mismatch: the cache file was read completely and differs from the blob,
+	// and it was still there afterwards (a file deleted concurrently is not a
+	// mismatch). Only evaluated when full is set.
+	Mismatch bool
 }
 
 // Stat inspects the store for b. Content is compared only when full is set.
 func (p *Peer) Stat(b *Blob, full bool) CacheState {
 	var st CacheState
-	if _, err := p.CADS.Cache().GetFileStat(b.Digest.Hex()); err == nil {
-		st.InCache = true
-	}
+	st.InCache = p.InCache(b)
 	if _, err := p.CADS.Download().GetFileStat(b.Digest.Hex()); err == nil {
 		st.InDownload = true
 	}
 	if st.InCache && full {
-		// Read the file directly: a reader through the store would count as an
-		// access; the path layout is the store's own (looked up via stat above).
-		st.Exact = p.cacheEquals(b)
+		if readable, equal := p.cacheEquals(b); readable && !equal && p.InCache(b) {
+			st.Mismatch = true
+		} else if !readable {
+			st.InCache = p.InCache(b)
+		}
 	}
 	return st
 }
 
-func (p *Peer) cacheEquals(b *Blob) bool {
+func (p *Peer) cacheEquals(b *Blob) (readable, equal bool) {
 	f, err := p.CADS.Cache().GetFileReader(b.Digest.Hex())
 	if err != nil {
-		return false
+		return false, false
 	}
 	defer f.Close()
-	buf := make([]byte, len(b.Content)+1)
-	n := 0
-	for n < len(buf) {
-		k, err := f.Read(buf[n:])
-		n += k
-		if err != nil {
-			break
-		}
+	got, err := io.ReadAll(f)
+	if err != nil {
+		return false, false
 	}
-	return n == len(b.Content) && bytes.Equal(buf[:n], b.Content)
+	return true, bytes.Equal(got, b.Content)
 }
 
 // InCache is a cheap presence test (stat only).
